@@ -211,3 +211,43 @@ prop('C12',
      'expected bytes come from the operation names; buffer image, returned values, zero-fill, consumed and remaining '
      'are compared after every call and ASan sees any access outside the exactly-sized buffers.',
      level_note='Sampled histories; 16-bit value spaces exhaustive; 32-bit values sampled with all single-byte patterns.')
+
+# ----------------------------------------------------------------------- C11
+BT = [R + 'bintree.c'] + UTIL
+NOPACKWARN = ['-Wno-address-of-packed-member']
+prop('C11',
+     'shapes: every binary tree shape with 0..11 (quick) / 0..14 (thorough) nodes, unranked from Catalan indices; each '
+     'shape: in/pre/post-order iterators against recursive traversals, byte image of all nodes compared after '
+     'completion, iterators re-run on the restored tree, bintree_free with free() as deallocator (log: exactly once, '
+     'children before parents), and for shapes up to 7 nodes bintree_free_left/right at every node followed by freeing '
+     'the remainder; the same again with every node at an address that is 2 mod 4; big: random shapes of 20-2000 nodes '
+     'and degenerate/zig-zag chains; lists: list iterator vs bintree_traverse_list on pure left- and right-leaning '
+     'spines of 0..12 list nodes with leaf and non-leaf elements. Non-trivial = shape with a node having both children '
+     'whose left subtree has a right spine >= 2 (threads are created and undone); shapes are distinct by construction.',
+     [Stage('shapes', ['harness/bintree.c'], BT, preset='asan', nproc=16, cflags=NOPACKWARN,
+            args={'quick': ['--extra', 'shapes'], 'thorough': ['--extra', 'shapes']},
+            needs_min={'shapes_tested': 82500, 'subtree_frees': 1000}, timeout={'quick': 600, 'thorough': 7200}),
+      Stage('shapes-align2', ['harness/bintree.c'], BT, preset='asan', nproc=16,
+            cflags=NOPACKWARN + ['-fno-sanitize=alignment'],
+            args={'quick': ['--extra', 'shapes:align2', '--cases', '10'], 'thorough': ['--extra', 'shapes:align2', '--cases', '12']},
+            needs_min={'shapes_tested': 23714}, timeout={'quick': 600, 'thorough': 7200}),
+      Stage('big', ['harness/bintree.c'], BT, preset='asan', nproc=16, cflags=NOPACKWARN,
+            args={'quick': ['--extra', 'big'], 'thorough': ['--extra', 'big']},
+            needs_min={'big_shapes': 100, 'degenerate_chains': 4}),
+      Stage('lists', ['harness/bintree.c'], BT, preset='asan', nproc=4, cflags=NOPACKWARN,
+            args={'quick': ['--extra', 'lists'], 'thorough': ['--extra', 'lists']},
+            needs_min={'list_spines_compared': 78}),
+      Stage('shapes-clang-O2', ['harness/bintree.c'], BT, preset='asan-O2', cc='clang', nproc=16, cflags=NOPACKWARN,
+            tiers=('thorough',), args={'thorough': ['--extra', 'shapes', '--cases', '11']})],
+     assumptions=['list spines are pure (every list node has two non-NULL children, the spine leans one way only)',
+                  'the 2-mod-4 placement stage is built without UBSan\'s alignment check: the statement allows 2-byte '
+                  'aligned nodes, which x86 executes, whereas the pointer members then are formally misaligned'],
+     exhaustive_note='shapes stages enumerate every shape up to the stated node count',
+     engine='E1', technique='runtime monitoring: exhaustive shape enumeration against recursive traversals, byte-image '
+     'restoration oracle, deallocation-log monitor with free() under ASan (use-after-free detection)',
+     level_text='Exploration, exhaustive up to a node bound: every tree shape up to 11/14 nodes is iterated three ways '
+     'on the real bintree.c, compared with recursive traversals and with a byte snapshot after completion; freeing uses '
+     'the real free() under ASan so any read of a deallocated node aborts; the deallocation log is checked for '
+     'exactly-once and children-before-parents.',
+     level_note='Shapes beyond the bound are sampled (random, chains). ASan detects use-after-free only while the block '
+     'sits in quarantine (default 256 MB, far larger than these trees).')
